@@ -338,6 +338,13 @@ def api_cases(thorough):
             for log in ("lin", "loglog"):
                 for layers in ("none", "one-mean", "two-mixed"):
                     yield {"kind": "api", "data": "spread-" + dt, "limits": limits, "log": log, "res": 4, "layers": layers, "xy": xy, "dtype": dt}
+    # a call that is refused part-way (its second layer has another length than the coordinates), then the same call done right, with as
+    # many layers and the same resolution: nothing of the refused call is found in it
+    for dname in ("spread", "negatives", "all-equal"):
+        for limits in ("auto", "explicit"):
+            for layers in ("two-mixed", "call-mean", "layer-sum-call-mean"):
+                for res in (2, 4):
+                    yield {"kind": "api", "data": dname, "limits": limits, "log": "lin", "res": res, "layers": layers, "xy": datasets[dname], "after_refused": True}
     # layers that carry options of the 1-d histogram (weights, bins), e.g. made with group.layer(key, bins=..., weights=...) and used for
     # both kinds of histogram, and the same options given to the call: a 2-d histogram layer is the per-bin sum or mean of its values
     for dname in ("spread", "negatives"):
@@ -422,6 +429,14 @@ def run_api_case(acc, idx, c):
         tx = np.log10(xs) if logx else xs
         ty = np.log10(ys) if logy else ys
     finite = np.isfinite(tx) & np.isfinite(ty)
+    if c.get("after_refused") and len(layers) == 2 and len(xs) > 1:
+        short = A_(np.arange(1.0, len(xs)), unit="s", name="short")  # one value too few
+        try:
+            with np.errstate(all="ignore"):
+                osyris.histogram2d(x, y, layers[0], short, logx=logx, logy=logy, resolution=c["res"], plot=False, **kw)
+            acc.violation("C05:histogram2d-accepted-a-layer-of-another-length", idx, c, {})
+        except Exception:
+            pass
     try:
         with np.errstate(all="ignore"):
             p = osyris.histogram2d(x, y, *layers, logx=logx, logy=logy, resolution=c["res"], plot=False, **kw)
